@@ -49,6 +49,9 @@ def run(tier, seed):
     def add(cause, launch, line=None, cfg=None):
         cases.append({"name": "sf%d" % len(cases), "cause": cause, "launch": launch,
                       "line": line or table["rows"][0]["line"], "cfg": cfg or cfgs[0], "variant": rng.randint(0, 59)})
+        if launch == "runner" and len(cases) % 4 == 0:
+            # another client sharing this one's *UnixSocketConfig is started between the failed Start and the Kill
+            cases[-1]["shared"] = True
     n_line = 70 if tier == "quick" else 500
     reject_rows = [r for r in near] + rng.sample(short, 20)
     for r in rng.sample(reject_rows, min(n_line, len(reject_rows))):
